@@ -109,6 +109,17 @@ func generate(w *mon.W) {
 				alt("`" + part + "`")
 			}
 		}
+		// every token replaced by each punctuation mark, operator and keyword
+		for i := range parts {
+			for _, v := range []string{",", "=", "|", "by", "]", ")", "(", "[", ";", ".", "and", "==", "-", "in"} {
+				if parts[i] == v {
+					continue
+				}
+				t := append([]string{}, parts...)
+				t[i] = v
+				do(join(t))
+			}
+		}
 		// cut at every byte (numbers, strings and operators end mid-token)
 		for i := 1; i < len(src); i++ {
 			do(src[:i])
